@@ -100,14 +100,7 @@ func canonTree(v any) string {
 
 // normValue renders a value with nil slices, maps and []byte written as empty ones (nil ~ empty).
 func normValue(d *TDesc, v reflect.Value) string {
-	s := " " + valueString(d, v) + " "
-	s = strings.ReplaceAll(s, " L ", " l 0 ")
-	s = strings.ReplaceAll(s, " L ", " l 0 ")
-	s = strings.ReplaceAll(s, " M ", " m 0 ")
-	s = strings.ReplaceAll(s, " M ", " m 0 ")
-	s = strings.ReplaceAll(s, " Y ", " y - ")
-	s = strings.ReplaceAll(s, " Y ", " y - ")
-	return strings.TrimSpace(s)
+	return normTokens(valueString(d, v))
 }
 
 // newRecomposer builds the recomposer of a case and plays the history on it.
@@ -268,6 +261,8 @@ type valFacts struct {
 	embPtr       bool // an embedded pointer in a struct type that is met
 	ifaceStruct  bool // an interface holding a struct or pointer to one
 	ifaceOther   bool // an interface holding something Recompose gives back in another Go type
+	ifaceCK      bool // an interface holding a map with a member named like the create key
+	ck           string
 }
 
 func facts(d *TDesc, v reflect.Value, inElem bool, f *valFacts) {
@@ -290,6 +285,13 @@ func facts(d *TDesc, v reflect.Value, inElem bool, f *valFacts) {
 		case dd.Kind == "slice" && dd.Elem.Kind == "iface" || dd.Kind == "map" && dd.Elem.Kind == "iface":
 		default:
 			f.ifaceOther = true
+		}
+		if dd.Kind == "map" {
+			for _, k := range e.MapKeys() {
+				if k.String() == f.ck {
+					f.ifaceCK = true
+				}
+			}
 		}
 		facts(dd, e, false, f)
 	case "slice", "array":
@@ -325,24 +327,63 @@ func facts(d *TDesc, v reflect.Value, inElem bool, f *valFacts) {
 	}
 }
 
-// expectInverse names the reason why the round trip of this case is not expected to give the
-// value back ("" when it is).
-func (c *c16Case) knownReason() string {
-	var f valFacts
+// knownReasons names the known deviations this case meets (why the round trip is not expected to
+// give the value back); empty when it is expected to.
+func (c *c16Case) knownReasons() []string {
+	f := valFacts{ck: c.createKey()}
 	facts(c.d, c.v, false, &f)
-	switch {
-	case f.embPtr:
-		return "C16-embedded-pointer"
-	case c.nameCollision(false):
-		return "C16-registry-bare-name"
-	case f.nilPtrElem:
-		return "C16-nil-pointer-element"
-	case f.nilIfaceElem:
-		return "C16-nil-interface-element"
-	case f.bytes && c.route == "decompose" && c.spec.BytesAs != ojg.BytesAsArray:
-		return "C16-bytes-text"
+	var out []string
+	if f.ifaceCK {
+		out = append(out, "C16-createkey-member")
 	}
-	return ""
+	if f.embPtr {
+		out = append(out, "C16-embedded-pointer")
+	}
+	if c.nameCollision(false) {
+		out = append(out, "C16-registry-bare-name")
+	}
+	if f.nilPtrElem {
+		out = append(out, "C16-nil-pointer-element")
+	}
+	if f.nilIfaceElem {
+		out = append(out, "C16-nil-interface-element")
+	}
+	if f.bytes && c.route == "decompose" && c.spec.BytesAs != ojg.BytesAsArray {
+		out = append(out, "C16-bytes-text")
+	}
+	return out
+}
+
+// embPtrInUniverse: some struct type the recomposer meets (history included) embeds a pointer, so a
+// registration panics half way and leaves the registry partly filled.
+func (c *c16Case) embPtrInUniverse() bool {
+	seen := map[reflect.Type]*TDesc{}
+	structTypes(c.d, seen)
+	dynTypes(c.d, c.v, seen)
+	for _, h := range c.hist {
+		structTypes(h.d, seen)
+		if h.v.IsValid() {
+			dynTypes(h.d, h.v, seen)
+		}
+	}
+	for _, d := range seen {
+		for _, f := range d.Fields {
+			if f.Embedded && f.Type.Kind == "ptr" {
+				return true
+			}
+		}
+	}
+	return false
+}
+
+func normTokens(s string) string {
+	s = " " + s + " "
+	for i := 0; i < 2; i++ {
+		s = strings.ReplaceAll(s, " L ", " l 0 ")
+		s = strings.ReplaceAll(s, " M ", " m 0 ")
+		s = strings.ReplaceAll(s, " Y ", " y - ")
+	}
+	return strings.TrimSpace(s)
 }
 
 func (c *c16Case) replay() map[string]any {
@@ -418,71 +459,95 @@ func checkC16(d *lib.Driver, c *c16Case) error {
 	exact0, norm0 := c.run(t, false)
 	exactH, normH := c.run(t, true)
 	rep.Sample(map[string]any{"type": c.d.RT.String(), "route": c.route, "history": len(c.hist), "outcome": norm0})
-	known := func(id, class, what string, extra map[string]any) {
+	report := func(ids []string, class, what string, extra map[string]any) {
 		rp := c.replay()
 		for k, v := range extra {
 			rp[k] = v
 		}
-		f := lib.Finding{Kind: "violation", Class: class, What: what, Replay: rp}
-		if id != "" && lib.HasKnown(knownList, id) {
-			f.Kind, f.KnownID = "known", id
+		if len(ids) == 0 {
+			rep.Add(lib.Finding{Kind: "violation", Class: class, What: what, Replay: rp})
+			return
 		}
-		rep.Add(f)
+		for _, id := range ids {
+			f := lib.Finding{Kind: "violation", Class: class + ":" + id, What: what, Replay: rp}
+			if lib.HasKnown(knownList, id) {
+				f.Kind, f.KnownID = "known", id
+			}
+			rep.Add(f)
+		}
+	}
+	// the model: the code as it is (b) and with the registry repair (-), without and with the history
+	var model [4]string
+	if d != nil {
+		ck := lib.HexF([]byte(c.createKey()))
+		var reqs []string
+		for _, dev := range []string{"b", "-"} {
+			for _, wh := range []bool{false, true} {
+				reqs = append(reqs, strings.Join([]string{"recomp", dev, ck, c.histTokens(wh), c.d.String(), canonTree(t)}, "\t"))
+			}
+		}
+		ans, err := d.Ask(reqs)
+		if err != nil {
+			return err
+		}
+		copy(model[:], ans)
 	}
 	// I. inverse, without history (the Marshal route writes no create key: a struct held by an interface
 	// cannot come back, the property asks for a create key there)
-	var fc valFacts
+	fc := valFacts{ck: c.createKey()}
 	facts(c.d, c.v, false, &fc)
+	// resolution of create-key names is data driven: the type guard of the repaired model cannot help there
+	dataDriven := fc.ifaceStruct || fc.ifaceCK
+	for _, h := range c.hist {
+		if h.v.IsValid() {
+			fh := valFacts{ck: c.createKey()}
+			facts(h.d, h.v, false, &fh)
+			dataDriven = dataDriven || fh.ifaceStruct || fh.ifaceCK
+		}
+	}
 	if c.route == "marshal" && fc.ifaceStruct {
 		rep.Count("inverse.skipped_marshal_iface_struct", 1)
 	} else if norm0 != want {
-		reason := c.knownReason()
-		cls := "inverse:" + c.route
-		if reason != "" {
-			cls += ":" + reason
+		reasons := c.knownReasons()
+		if len(reasons) == 1 && reasons[0] == "C16-registry-bare-name" && d != nil && !dataDriven && model[2] != "outside" && normTokens(model[2]) != want {
+			// the registry repair of the model does not explain it
+			reasons = nil
 		}
-		known(reason, cls, fmt.Sprintf("%s route: got %s, want %s", c.route, norm0, want), map[string]any{"got": norm0, "want": want})
+		report(reasons, "inverse:"+c.route, fmt.Sprintf("%s route: got %s, want %s", c.route, norm0, want), map[string]any{"got": norm0, "want": want})
 	} else {
 		rep.Count("inverse.ok", 1)
 	}
 	// II. history independence
 	if len(c.hist) > 0 {
 		if normH != norm0 {
-			reason := ""
-			if c.nameCollision(true) {
-				reason = "C16-registry-bare-name"
+			var reasons []string
+			if c.embPtrInUniverse() {
+				reasons = append(reasons, "C16-embedded-pointer")
 			}
-			cls := "history:" + c.route
-			if reason != "" {
-				cls += ":" + reason
+			if fc.ifaceCK {
+				reasons = append(reasons, "C16-createkey-member")
 			}
-			known(reason, cls, fmt.Sprintf("after the history the outcome is %s, without it %s", normH, norm0),
+			if c.nameCollision(true) && (d == nil || len(reasons) > 0 || dataDriven || model[2] == "outside" || model[3] == "outside" || model[2] == model[3]) {
+				reasons = append(reasons, "C16-registry-bare-name")
+			}
+			report(reasons, "history:"+c.route, fmt.Sprintf("after the history the outcome is %s, without it %s", normH, norm0),
 				map[string]any{"with_history": normH, "without_history": norm0})
 		} else {
 			rep.Count("history.same", 1)
 		}
 	}
-	// III. the model
+	// III. the model of the code as it is gives the implementation's outcome
 	if d != nil {
-		ck := lib.HexF([]byte(c.createKey()))
-		reqs := []string{
-			strings.Join([]string{"recomp", "b", ck, c.histTokens(false), c.d.String(), canonTree(t)}, "\t"),
-			strings.Join([]string{"recomp", "b", ck, c.histTokens(true), c.d.String(), canonTree(t)}, "\t"),
-		}
-		ans, err := d.Ask(reqs)
-		if err != nil {
-			return err
-		}
 		for i, got := range []string{exact0, exactH} {
-			if ans[i] == "outside" {
+			if model[i] == "outside" {
 				rep.Count("model.outside", 1)
 				continue
 			}
-			if ans[i] != got {
+			if model[i] != got {
 				rp := c.replay()
-				rp["model"], rp["implementation"], rp["with_history"] = ans[i], got, i == 1
+				rp["model"], rp["implementation"], rp["with_history"] = model[i], got, i == 1
 				rep.Add(lib.Finding{Kind: "disagreement", Class: "model:recompose:" + c.route, Replay: rp,
-					What: fmt.Sprintf("model %s, implementation %s", ans[i], got)})
+					What: fmt.Sprintf("model %s, implementation %s", model[i], got)})
 			}
 		}
 	}
